@@ -50,6 +50,12 @@ def run(ctx):
         spec = {"format": fmt, "compression": "", "eps": 300, "sessions": [{"kind": "filler", "sub": [], "reopen": False, "ops": [["W", 0, None, True]] * 650}]}
         jobs.append({"dataset": spec, "requests": [{"iface": iface, "split": 0, "shuffle": 0, "repeat": False, "file_parallelism": 2, "passes": 1}
                                                    for iface in iterlib.ifaces_for(spec)]})
+    # no degree of parallelism given to as_tfdataset on a TFRecord dataset; many more shards than any cap on the number of reader threads
+    spec = {"format": "tfrec", "compression": "", "eps": 2, "sessions": [{"kind": "filler", "sub": [], "reopen": False, "ops": [["W", 0, None, True]] * 11}]}
+    jobs.append({"dataset": spec, "requests": [{"iface": "tf", "split": 0, "shuffle": 0, "repeat": False, "file_parallelism": None, "passes": 2}]})
+    spec = {"format": "fb", "compression": "", "eps": 1, "sessions": [{"kind": "filler", "sub": [], "reopen": False, "ops": [["W", 0, None, True]] * 70}]}
+    jobs.append({"dataset": spec, "requests": [{"iface": iface, "split": 0, "shuffle": 0, "repeat": False, "file_parallelism": fp, "passes": 1}
+                                               for iface in ("rust", "concurrent") for fp in (33, 40, 65)]})
     res = iterlib.run_jobs(jobs)
     runs = 0
     for job, r in zip(jobs, res):
